@@ -6,6 +6,9 @@ R-C05-2  operator/hint correspondence: comparisons state the relation their name
 R-C05-3  every binary operator uses its operand
 R-C05-4  sign-sensitive uses of public integer operands (slice bounds) are guarded
 R-C05-5  divisors are tested for zero before use
+R-C05-6  guard discipline (shared with C08): 'or raises' is not switched off behind the user's back
+R-C05-8  no integer operator reduces the value it reports modulo the field prime
+R-C05-7  the range-checking decomposition lies on every completing path of the operator arms that rely on it
 """
 import ast
 import itertools
@@ -321,6 +324,84 @@ def rule_divisor(repo, rule):
                                "division by zero is not turned into the documented ValueError", "%s/zero/%s" % (fi.fq, kind))
 
 
+def rule_domain(repo, rule):
+    """An operator arm whose result is built from a bit decomposition of `self` is only correct for operands in the
+    decomposition's range; the decomposition (which raises outside the range) must therefore lie on every completing
+    path of that arm - a shortcut return that skips it returns a value where Python's differs."""
+    from ..cfg import CFG, calls_in, own_stmt_part
+    lc = repo.cls(RT, "LinComb")
+    for name, fi in sorted(lc.methods.items()):
+        if not (name.startswith("__") and name.endswith("__")):
+            continue
+        s_ = fi.params[0] if fi.params else "self"
+        arms = [n for n in fi.node.body if isinstance(n, ast.If) and norm(n.test).startswith("isinstance(")]
+        if not arms:
+            arms = [None]
+        cfg = None
+        for arm in arms:
+            scope = arm.body if arm is not None else fi.node.body
+            dec = [c for st in scope for c in ast.walk(st) if isinstance(c, ast.Call) and isinstance(c.func, ast.Attribute)
+                   and c.func.attr == "to_bits" and norm(c.func.value) == s_]
+            if not dec:
+                continue
+            if cfg is None:
+                cfg = CFG(fi.node)
+            dn = {n for n in range(cfg.n) if cfg.stmt[n] is not None and any(
+                c in dec for c in calls_in(own_stmt_part(cfg.stmt[n], cfg.kind[n])))}
+            first = scope[0]
+            start = [n for n in range(cfg.n) if cfg.stmt[n] is first]
+            where = fi.loc(dec[0])
+            if not start:
+                rule.undecided(where, fi.fq, name, "arm entry not found in the CFG")
+                continue
+            if start[0] in dn:
+                rule.ok(where, fi.fq, "%s: %s dominates the arm" % (name, norm(dec[0])))
+                continue
+            # pretend entry: paths from the arm's first statement to EXIT avoiding the decomposition
+            avoid = set(dn)
+            seen = cfg.reach_avoiding(start[0], avoid)
+            seen.add(start[0])
+            leak = None
+            for n in sorted(seen):
+                st = cfg.stmt[n]
+                if isinstance(st, ast.Return) and st.value is not None and norm(st.value) != "NotImplemented" and any(st is x for s2 in scope for x in ast.walk(s2)):
+                    leak = st
+                    break
+            term = "%s arm `%s`: result built from %s" % (name, norm(arm.test) if arm is not None else "-", norm(dec[0]))
+            if leak is not None:
+                rule.violation(fi.loc(leak), fi.fq, term + "; but `%s` is reached without it" % norm(leak)[:60],
+                               "a path returns a result without the range-checking decomposition: for operands outside the "
+                               "bitlength range it returns a value instead of raising, and the value differs from Python's",
+                               "%s/domain/%s" % (fi.fq, norm(leak)[:40]))
+            else:
+                rule.ok(where, fi.fq, term, "the decomposition lies on every completing path of the arm")
+
+
+def rule_no_reduction(repo, rule):
+    """Integer operators must report Python's integer, not its residue mod p: an in-place `value %= modulus` inside an
+    operator turns negative (and >= p) results into different numbers."""
+    n = 0
+    for mod, cn in ((RT, "LinComb"), ("pysnark.boolean", "LinCombBool")):
+        ci = repo.cls(mod, cn)
+        for name, fi in sorted(ci.methods.items()):
+            if not (name.startswith("__") and name.endswith("__")):
+                continue
+            for st in ast.walk(fi.node):
+                tgt = None
+                if isinstance(st, ast.AugAssign) and isinstance(st.op, ast.Mod):
+                    tgt = st.target
+                elif isinstance(st, ast.Assign) and isinstance(st.value, ast.BinOp) and isinstance(st.value.op, ast.Mod):
+                    tgt = st.targets[0]
+                if tgt is not None and isinstance(tgt, ast.Attribute) and tgt.attr == "value":
+                    n += 1
+                    rule.violation(fi.loc(st), fi.fq, norm(st), "the reported value of `%s` is reduced into [0, p): for a negative (or "
+                                   ">= p) result it differs from the value Python computes" % name.strip("_"),
+                                   "%s/reduce/%s" % (fi.fq, norm(tgt)))
+    ops = sum(1 for mod, cn in ((RT, "LinComb"), ("pysnark.boolean", "LinCombBool")) for nm in repo.cls(mod, cn).methods
+              if nm.startswith("__") and nm.endswith("__"))
+    rule.ok("%s" % RT, "operators", "%d operator methods scanned, %d in-place reductions of a reported value" % (ops, n))
+
+
 def check(repo, rep, tier):
     rep.explanation = ("Agreement with Python for all operands is a value property; the clauses decided here are structural "
                        "necessary conditions: operand order of reflected methods, the relation each comparison tests (canonical "
@@ -339,3 +420,10 @@ def check(repo, rep, tier):
     rule_sign(repo, r4)
     r5 = rep.rule("R-C05-5", "divisors are tested for zero before use", floor=4)
     rule_divisor(repo, r5)
+    r7 = rep.rule("R-C05-7", "range-checking decomposition on every completing path of the arms that depend on it", floor=5)
+    rule_domain(repo, r7)
+    r8 = rep.rule("R-C05-8", "integer operators report Python's integer, not its residue mod p", floor=1)
+    rule_no_reduction(repo, r8)
+    r6 = rep.rule("R-C05-6", "'or raises' is not silently switched off: guard state is restored exactly (shared with C08)", floor=10)
+    from .c08 import guard_discipline
+    guard_discipline(repo, r6)
